@@ -18,9 +18,11 @@ class C07(P.Property):
     tiers = {"quick": dict(runs=1600, budget_s=70), "thorough": dict(runs=50000, budget_s=800)}
     technique = ("deterministic simulation: seeded search histories (repetition, any order, present/absent keywords) against one long-lived "
                  "index, locally and inside the simulated server over one or several connections; state read behind the parties' backs")
-    level_text = ("seeded exploration of setup + search histories (10-40 tokens with repetition) for all nine schemes and a configuration "
-                  "grid; inputs compared with deep copies, the server's in-memory index and the client's index compared byte for byte "
-                  "before/after, every answer compared with the single-search answer on a pristine copy")
+    level_text = ("seeded exploration of setup + search histories (10-40 tokens with repetition; lists up to 1500) for all nine schemes and a "
+                  "configuration grid: locally on the index object EDBSetup returned, locally on an index loaded from bytes with all results "
+                  "kept, and inside the simulated server over 1-4 connections (decoy service, reused scheme object, key files of an earlier "
+                  "run); inputs compared with deep copies, indexes compared byte for byte before/after, every answer compared with the "
+                  "single-search answer on a pristine copy")
     level_note = ("no fault dimension: the property has none; the simulator only provides the long-lived shared party (server process) and "
                   "the histories; trusted: harness reach-ins connector._sse_service_manager._service_dict[sid].edb (exit 2 if renamed)")
     rule = ("history = 10..40 searches drawn with repetition from present/absent/near-miss keywords, cut into 1..4 consecutive connections; "
